@@ -100,6 +100,7 @@ class Module:
             for child in ast.iter_child_nodes(node):
                 child._parent = node  # type: ignore[attr-defined]
         self.tree._parent = None  # type: ignore[attr-defined]
+        self.tree._mod = self  # type: ignore[attr-defined]  (lets consteval find the module of any node)
 
         def visit(body, prefix, cls):
             for st in body:
@@ -533,3 +534,92 @@ def last_attr(call: ast.Call):
 @lru_cache(maxsize=4)
 def load_repo(root=None) -> Repo:
     return Repo(root)
+
+
+# ---------------------------------------------------------------------------
+# helpers that make shape rules survive behaviour-preserving refactorings
+# ---------------------------------------------------------------------------
+def inline_locals(fn, expr, max_rounds=3):
+    """``expr`` with every plain local of ``fn`` that is assigned exactly once (and is not a loop/with/except target)
+    replaced by its defining expression -- undoes `alias = self.tables[tag]` style refactorings."""
+    import copy
+
+    defs = {}
+    multi = set()
+    for n in walk_no_nested(fn):
+        if isinstance(n, ast.Assign) and len(n.targets) == 1 and isinstance(n.targets[0], ast.Name):
+            defs.setdefault(n.targets[0].id, []).append(n.value)
+        elif isinstance(n, (ast.AugAssign, ast.AnnAssign)) and isinstance(n.target, ast.Name):
+            multi.add(n.target.id)
+        elif isinstance(n, (ast.For, ast.AsyncFor, ast.comprehension)):
+            multi.update(x.id for x in ast.walk(n.target) if isinstance(x, ast.Name))
+        elif isinstance(n, ast.Assign):
+            for t in n.targets:
+                multi.update(x.id for x in ast.walk(t) if isinstance(x, ast.Name) and isinstance(x.ctx, ast.Store))
+    params = {a.arg for a in fn.args.posonlyargs + fn.args.args + fn.args.kwonlyargs} if hasattr(fn, "args") else set()
+    single = {k: v[0] for k, v in defs.items() if len(v) == 1 and k not in multi and k not in params}
+
+    class T(ast.NodeTransformer):
+        def visit_Name(self, n):
+            if isinstance(n.ctx, ast.Load) and n.id in single:
+                return ast.parse(norm(single[n.id]), mode="eval").body
+            return n
+
+    out = ast.parse(norm(expr), mode="eval").body
+    for _ in range(max_rounds):
+        new = T().visit(out)
+        if ast.dump(new) == ast.dump(out):
+            break
+        out = new
+    return out
+
+
+def private_callees(repo, f, depth=2):
+    """Functions of the same module / class that ``f`` calls as self._x(...), cls._x(...), Class._x(...) or _x(...)
+    (underscore-prefixed or not), followed ``depth`` levels: the closure an extract-method refactoring moves code into."""
+    out = []
+    seen = {id(f.node)}
+    frontier = [f]
+    for _ in range(depth):
+        nxt = []
+        for g in frontier:
+            for c in calls_in(g.node, nested=False):
+                tgt = None
+                fn = c.func
+                if isinstance(fn, ast.Attribute) and isinstance(fn.value, ast.Name) and fn.value.id in ("self", "cls") and g.cls is not None:
+                    for k in repo.mro(g.cls):
+                        if fn.attr in k.methods:
+                            tgt = k.methods[fn.attr]
+                            break
+                elif isinstance(fn, ast.Attribute) and isinstance(fn.value, ast.Name) and fn.value.id in g.mod.classes:
+                    tgt = g.mod.classes[fn.value.id].methods.get(fn.attr)
+                elif isinstance(fn, ast.Name) and fn.id in g.mod.funcs:
+                    tgt = g.mod.funcs[fn.id]
+                if tgt is not None and id(tgt.node) not in seen:
+                    seen.add(id(tgt.node))
+                    out.append(tgt)
+                    nxt.append(tgt)
+        frontier = nxt
+    return out
+
+
+def walk_closure(repo, f, depth=2):
+    """nodes of f and of its private callees (see private_callees)"""
+    yield from walk_no_nested(f.node)
+    for g in private_callees(repo, f, depth):
+        yield from walk_no_nested(g.node)
+
+
+def canon_cond(t):
+    """(expr_text, polarity) with leading `not`s stripped and `!=` / `is not` / `not in` turned into their positive forms"""
+    pol = True
+    while isinstance(t, ast.UnaryOp) and isinstance(t.op, ast.Not):
+        t, pol = t.operand, not pol
+    if isinstance(t, ast.Compare) and len(t.ops) == 1:
+        op = t.ops[0]
+        flip = {ast.NotEq: ast.Eq, ast.IsNot: ast.Is, ast.NotIn: ast.In}
+        for neg, posop in flip.items():
+            if isinstance(op, neg):
+                t2 = ast.Compare(left=t.left, ops=[posop()], comparators=t.comparators)
+                return norm(t2), not pol
+    return norm(t), pol
